@@ -71,13 +71,19 @@ static void use_sandbox(int t, sbx_t& sb, const char* tag)
   sb.free_in_sandbox(p);
 }
 
+// --pre 1: every thread's sandbox is created before the threads start (in thread order, so the process-wide list is
+// [0, 1, 2]); the threads then use and destroy concurrently. Interleavings of "use in the last-created sandbox" with "destroy of
+// an earlier one" need one preemption instead of three.
+static int g_pre = 0;
+static sbx_t* g_pre_sb[vs::kMaxT];
 static void script(int t)
 {
-  sbx_t sb;
+  sbx_t local;
+  sbx_t& sb = g_pre ? *g_pre_sb[t] : local;
   g_sbx[t] = &sb;
   auto& obs = g_obs[t];
   try {
-    bk_create(sb, t, 1 + (t & 1));
+    if (!g_pre) bk_create(sb, t, 1 + (t & 1));
     obs.push_back("created");
     use_sandbox(t, sb, "first");
     sb.destroy_sandbox();
@@ -109,7 +115,7 @@ struct Exec
 static std::string g_cur_sched;
 static std::string case_of(const std::string& choices)
 {
-  return "sched|" + std::to_string(g_nthreads) + "|" + std::to_string(g_script_len) + "|" + choices;
+  return "sched|" + std::to_string(g_nthreads) + "|" + std::to_string(g_script_len + 10 * g_pre) + "|" + choices;
 }
 static void deadlock_report()
 {
@@ -138,6 +144,11 @@ static Exec run_inproc(const std::vector<int>& prefix, int only_thread = -1)
   if (only_thread >= 0)
     for (int t = 0; t < g_nthreads; t++)
       if (t != only_thread) S.finished[t] = true;
+  if (g_pre)
+    for (int t = 0; t < g_nthreads; t++) {
+      g_pre_sb[t] = new sbx_t; // one execution per forked child: never reused
+      bk_create(*g_pre_sb[t], t, 1 + (t & 1));
+    }
   S.active = true;
   std::vector<std::thread> ths;
   for (int t = 0; t < g_nthreads; t++) {
@@ -159,6 +170,14 @@ static Exec run_inproc(const std::vector<int>& prefix, int only_thread = -1)
   }
   for (auto& th : ths) th.join();
   S.active = false;
+  if (g_pre && only_thread >= 0)
+    for (int t = 0; t < g_nthreads; t++)
+      if (t != only_thread) {
+        try {
+          g_pre_sb[t]->destroy_sandbox();
+        } catch (const std::runtime_error&) {
+        }
+      }
 #ifdef BK_MBOX
   // the registry must never hand a sandbox that is being / has been destroyed to the backend
   if (only_thread < 0 || only_thread == 0) g_obs[0].push_back("end:queries-to-destroyed-sandboxes=" + std::to_string(SB::dead_queries()));
@@ -332,6 +351,7 @@ int main(int argc, char** argv)
   g_nthreads = atoi(opt("--threads", "2").c_str());
   g_bound = atoi(opt("--bound", thorough ? "3" : "2").c_str());
   g_script_len = atoi(opt("--len", "2").c_str());
+  g_pre = atoi(opt("--pre", "0").c_str());
 
   // solo runs: the reference observations
   for (int t = 0; t < g_nthreads; t++) {
@@ -347,7 +367,8 @@ int main(int argc, char** argv)
   if (g_args.replay) {
     auto f = split(g_args.replay, '|');
     g_nthreads = atoi(f[1].c_str());
-    g_script_len = atoi(f[2].c_str());
+    g_script_len = atoi(f[2].c_str()) % 10;
+    g_pre = atoi(f[2].c_str()) / 10;
     for (int t = 0; t < g_nthreads; t++) g_solo[t] = run({}, t).obs[t];
     std::vector<int> pfx;
     g_cur_sched = f[3];
